@@ -208,9 +208,31 @@ def build_scenarios(prop, tier, rnd):
             gens = gens[:30]
         ws = WITNESS[1:4] if q else WITNESS
         for i, ops in enumerate(gens + walks + ws):
-            cfg = {"kt": ["string", "bytes", "u32"][i % 3], "n": [1, 2, 3][(i // 3) % 3], "sync": True}
+            # process-kill images are also taken in Async mode (the background sync thread changes no content);
+            # power loss (C09) is a Sync-mode property
+            cfg = {"kt": ["string", "bytes", "u32"][i % 3], "n": [1, 2, 3][(i // 3) % 3], "sync": mode == "power" or i % 4 != 3}
             env = {"mode": mode, "nested": (i % (3 if q else 2) == 0) and mode == "crash", "cont": mode == "crash"}
             add(ops, cfg, env, chunk=i)
+        if prop == "C06":
+            # a reader obtained before an overwrite / removal / re-put of the same content / reopen keeps
+            # streaming the complete original content
+            rd = []
+            for c in ("A", "G", "C", "E"):
+                rd.append([{"op": "put", "k": 1, "c": c}, {"op": "rdopen", "k": 1, "id": 1}, {"op": "put", "k": 1, "c": "B"}, {"op": "rddrain", "id": 1}])
+                rd.append([{"op": "put", "k": 1, "c": c}, {"op": "rdopen", "k": 1, "id": 1}, {"op": "del", "k": 1}, {"op": "ckpt"}, {"op": "rddrain", "id": 1}])
+                rd.append([{"op": "put", "k": 1, "c": c}, {"op": "put", "k": 2, "c": c}, {"op": "rdopen", "k": 2, "id": 7},
+                           {"op": "delr", "lo": ["U", 0], "hi": ["U", 0]}, {"op": "put", "k": 3, "c": c}, {"op": "rdopen", "k": 3, "id": 8},
+                           {"op": "put", "k": 3, "c": c}, {"op": "reopen"}, {"op": "del", "k": 3}, {"op": "rddrain", "id": 7}, {"op": "rddrain", "id": 8}])
+            for w in walks[: (6 if q else 100)]:
+                w2 = []
+                for j, o in enumerate(w):
+                    w2.append(o)
+                    if o["op"] == "put" and j % 2 == 0:
+                        w2.append({"op": "rdopen", "k": o["k"], "id": j})
+                w2 += [{"op": "rddrain", "id": j} for j in range(len(w))]
+                rd.append(w2)
+            for i, ops in enumerate(rd):
+                add(ops, {"kt": KTS[i % len(KTS)], "n": [2, 1, 10000][i % 3], "sync": i % 2 == 0}, {"mode": "plain"}, chunk=i)
         if prop in ("C03", "C20"):
             # large multi-key / large-key records (two write calls per record)
             for i, ops in enumerate(walks[: (4 if q else 60)]):
